@@ -182,7 +182,7 @@ go_rt_inv = [i for i, s in enumerate(enc_inputs) if not is_valid(s) and (rt[i] =
 
 # ---------------------------------------------------------------- Coq side
 def H(b): return 'H "%s"' % b.hex()
-lines = ["""(* generated by difftest.py *)
+HEADER = """(* generated by difftest.py *)
 From Coq Require Import NArith Ascii String List Bool.
 From Ergo Require Import Utf8 Codec.
 Import ListNotations.
@@ -193,19 +193,8 @@ Fixpoint H (s : string) : string :=
   match s with String a (String b r) => String (ascii_of_N (hv a * 16 + hv b)) (H r) | _ => "" end.
 Definition oeq (a b : option string) : bool :=
   match a, b with Some x, Some y => String.eqb x y | None, None => true | _, _ => false end.
-"""]
-for i, (s, t, f) in enumerate(zip(enc_inputs, go_t, go_f)):
-    lines.append("Definition e%d := %s. Definition t%d := %s. Definition f%d := %s." % (i, H(s), i, H(t), i, H(f)))
-lines.append("Definition enc_cases : list (N * bool * string * string * string) := [")
-lines.append(";\n".join("(%d, %s, e%d, t%d, f%d)" % (i, "true" if is_valid(s) else "false", i, i, i)
-                        for i, s in enumerate(enc_inputs)))
-lines.append("].")
-for i, (l, d) in enumerate(zip(dec_inputs, go_d)):
-    lines.append("Definition d%d := %s. Definition r%d := %s." % (i, H(l), i, "@None string" if d is None else "Some (%s)" % H(d)))
-lines.append("Definition dec_cases : list (N * string * option string) := [")
-lines.append(";\n".join("(%d, d%d, r%d)" % (i, i, i) for i in range(len(dec_inputs))))
-lines.append("].")
-lines.append("""
+"""
+TAIL = """
 Definition enc_bad := flat_map (fun '(i, v, e, t, f) =>
   if String.eqb (json_encode_string true e) t && String.eqb (json_encode_string false e) f
      && Bool.eqb (valid_utf8 e) v then [] else [i]) enc_cases.
@@ -216,27 +205,63 @@ Definition rt_bad := flat_map (fun '(i, v, e, t, f) =>
 Eval vm_compute in ("ENC_BAD", enc_bad).
 Eval vm_compute in ("DEC_BAD", dec_bad).
 Eval vm_compute in ("RT_BAD", rt_bad).
-""")
-vfile = os.path.join(args.coq, "cases.v")
-open(vfile, "w").write("\n".join(lines))
+"""
+
+
+def shard_text(eidx, didx):
+    lines = [HEADER]
+    for i in eidx:
+        s, t, f = enc_inputs[i], go_t[i], go_f[i]
+        lines.append("Definition e%d := %s. Definition t%d := %s. Definition f%d := %s." % (i, H(s), i, H(t), i, H(f)))
+    lines.append("Definition enc_cases : list (N * bool * string * string * string) := [")
+    lines.append(";\n".join("(%d, %s, e%d, t%d, f%d)" % (i, "true" if is_valid(enc_inputs[i]) else "false", i, i, i) for i in eidx))
+    lines.append("].")
+    for i in didx:
+        l, d = dec_inputs[i], go_d[i]
+        lines.append("Definition d%d := %s. Definition r%d := %s." % (i, H(l), i, "@None string" if d is None else "Some (%s)" % H(d)))
+    lines.append("Definition dec_cases : list (N * string * option string) := [")
+    lines.append(";\n".join("(%d, d%d, r%d)" % (i, i, i) for i in didx))
+    lines.append("].")
+    lines.append(TAIL)
+    return "\n".join(lines)
+
+
+import concurrent.futures as _cf, tempfile, shutil
+NSH = 8
+work = tempfile.mkdtemp(prefix='codec-', dir=os.environ.get('VERIF_SCRATCH') or None)
 t0 = time.time()
-p = subprocess.run(["coqc", "-Q", "theories", "Ergo", "-w", "-all", "cases.v"], cwd=args.coq,
-                   stdout=subprocess.PIPE, stderr=subprocess.STDOUT, timeout=1800)
-out = p.stdout.decode()
+
+
+def run_shard(k):
+    name = os.path.join(work, "cases%d.v" % k)
+    open(name, "w").write(shard_text(list(range(len(enc_inputs)))[k::NSH], list(range(len(dec_inputs)))[k::NSH]))
+    p = subprocess.run(["coqc", "-Q", os.path.join(args.coq, "theories"), "Ergo", "-w", "-all", name],
+                       stdout=subprocess.PIPE, stderr=subprocess.STDOUT, timeout=1800)
+    return p.returncode, p.stdout.decode()
+
+
+try:
+    with _cf.ThreadPoolExecutor(max_workers=NSH) as ex:
+        results = list(ex.map(run_shard, range(NSH)))
+finally:
+    if not args.keep:
+        shutil.rmtree(work, ignore_errors=True)
 dt = time.time() - t0
-if not args.keep:
-    for ext in (".v", ".vo", ".vok", ".vos", ".glob"):
-        try: os.remove(os.path.join(args.coq, "cases" + ext))
-        except OSError: pass
-    try: os.remove(os.path.join(args.coq, ".cases.aux"))
-    except OSError: pass
-if p.returncode != 0:
-    print(out[-3000:]); sys.exit("coqc failed")
+for rc, o in results:
+    if rc != 0:
+        print(o[-3000:]); sys.exit("coqc failed")
+outs = [o for _, o in results]
+
 
 def bad(tag):
-    m = re.search(r'\("%s",\s*(\[[^\]]*\])\)' % tag, out)
-    assert m, out[-2000:]
-    return [int(x) for x in re.findall(r"\d+", m.group(1))]
+    res = []
+    for out in outs:
+        m = re.search(r'\("%s",\s*(\[[^\]]*\])\)' % tag, out)
+        assert m, out[-2000:]
+        res += [int(x) for x in re.findall(r"\d+", m.group(1))]
+    return sorted(res)
+
+
 eb, db, rb = bad("ENC_BAD"), bad("DEC_BAD"), bad("RT_BAD")
 print("encoder cases: %d (%d valid UTF-8, %d invalid), each with html=true and html=false, plus valid_utf8 vs Python"
       % (len(enc_inputs), n_valid, len(enc_inputs) - n_valid))
